@@ -256,6 +256,12 @@ where {
 
         // Cleartext body
         writer.write_all(self.csf_encoded_text.as_bytes())?;
+        // The line ending before the armor header line is not part of the text. After a text
+        // that ends in a lone CR, a bare LF would be read back as a CR+LF line ending (and the CR
+        // would be lost), so CR+LF is written in that case.
+        if self.csf_encoded_text.ends_with('\r') {
+            writer.write_all(b"\r")?;
+        }
         writer.write_all(b"\n")?;
 
         /// A signature wrapper that serializes complete with packet header
